@@ -1651,6 +1651,9 @@ class Engine:
         if h is not None:
             return h(self, st, fr, fn, args, ins)
         h = self.stubs.get(name)
+        if h is None and fn['external']:
+            from . import stubs as _stubs
+            h = _stubs.resolve(fn['name'])
         if h is not None:
             return h(self, st, fr, fn, args, ins)
         if fn['external']:
@@ -1828,6 +1831,12 @@ class Engine:
 
     def on_empty_frames(self, st):
         return False
+
+    def sync_acquire(self, st, key):
+        pass
+
+    def sync_release(self, st, key):
+        pass
 
     def pool_release(self, st, item):
         pass
@@ -2021,6 +2030,17 @@ def _run_path(self, st):
         self.end_path(st, e.args[0])
     except Unsupported as e:
         self.cur_result['unsupported'].append(str(e))
+        # concolic fall-back: a concrete input of the path prefix; the runner completes the run natively
+        fb = self.cur_result.setdefault('fallbacks', [])
+        if len(fb) < self.opts.get('fallbacks', 4):
+            try:
+                if self.solver.check(st.pc + st.defs) == 'sat':
+                    m = self.solver.model()
+                    fb.append({'values': [{'name': n, 'bits': str(self.model_bits(m, term, tid))} for n, tid, term in st.nondet],
+                               'reason': str(e)[:200]})
+                self.solver.done()
+            except Exception:
+                pass
         self.end_path(st, 'unsupported')
 
 
